@@ -91,6 +91,10 @@ def r1_direction_wrapper(ctx):
         if isinstance(arg, ast.Subscript) and norm(arg.value) == xv and \
                 isinstance(arg.slice, ast.Name):
             pv_ = R.reaching_value(arg.slice)
+            # (a reversed sorting permutation is a permutation too)
+            while isinstance(pv_, ast.Subscript) and norm(
+                    pv_.slice) == "::-1":
+                pv_ = pv_.value
             if isinstance(pv_, ast.Call) and (call_name(pv_) or "").endswith(
                     "argsort"):
                 return ("perm", arg.slice.id), okp
